@@ -37,7 +37,8 @@ RULE = ("program = seeded render-class tree + namespace classes; history = <= ma
 PROBES = ["interned_default_returned", "init_returned_itself", "incompatible_init_rejected",
           "incompatible_namespace_rejected", "convert_to_parent_drops_namespaces",
           "ror_used", "equal_sets_hash_equal", "negative_namespace_definition",
-          "last_namespace_wins", "inheriting_namespace_subclass"]
+          "last_namespace_wins", "inheriting_namespace_subclass",
+          "namespace_with_converting_constructor", "plain_mixin_among_bases"]
 COMPONENTS = {
     "real": ["RenderArgs (__new__/__init__ interning, update, convert, __eq__, __hash__, "
              "__contains__, __getitem__)", "ArgsNamespace (__or__, __ror__, __pos__, update, "
@@ -64,7 +65,13 @@ def run(ch, ctx, fault=None):
         def new_class(parent_idx):
             base = Renderable if parent_idx is None else classes[parent_idx]["cls"]
             name = "C%d" % len(classes)
-            cls = type(base)(name, (base,), {
+            bases = (base,)
+            if ch.bool("mixin", 0.2):
+                # a plain (non-render) mixin next to the render base, on either side of it
+                mixin = type("Mixin%d" % len(classes), (), {"helper": lambda self: None})
+                bases = (mixin, base) if ch.bool("mixin_first", 0.5) else (base, mixin)
+                ctx.probe("plain_mixin_among_bases")
+            cls = type(base)(name, bases, {
                 "_get_render_size_": lambda self: None, "_render_": lambda self, a, b: None})
             d = {"cls": cls, "parent": parent_idx, "fields": None, "Args": None, "ArgsSub": None,
                  "name": name}
@@ -73,6 +80,23 @@ def run(ch, ctx, fault=None):
                 fields = {"f%d" % j: ch.int("default", 0, 3) for j in range(nf)}
                 ns = {"__annotations__": {k_: int for k_ in fields}}
                 ns.update(fields)
+                d["defaults"] = dict(fields)
+                if ch.bool("custom_init", 0.25):
+                    # a converting constructor (allowed: no required parameters).  It is NOT
+                    # idempotent, so any operation that re-runs it on existing values shows
+                    names_ = list(fields)
+
+                    def __init__(self, *values, _names=names_, _fields=dict(fields), **kw):
+                        vals = dict(_fields)
+                        vals.update(zip(_names, values))
+                        vals.update(kw)
+                        if len(values) <= len(_names):
+                            vals[_names[0]] = vals[_names[0]] + 1000
+                        ArgsNamespace.__init__(self, **vals)
+                    ns["__init__"] = __init__
+                    d["custom_init"] = True
+                    d["defaults"][names_[0]] += 1000
+                    ctx.probe("namespace_with_converting_constructor")
                 d["Args"] = type(ArgsNamespace)(name + "Args", (ArgsNamespace,), ns,
                                                 render_cls=cls)
                 d["fields"] = fields
@@ -117,7 +141,7 @@ def run(ch, ctx, fault=None):
 
         # ------------------------------------------------------------ model values
         def default_value(i):
-            return {j: dict(classes[j]["fields"]) for j in with_args(i)}
+            return {j: dict(classes[j]["defaults"]) for j in with_args(i)}
 
         def ra_snapshot(obj):
             return (obj.render_cls,
@@ -139,7 +163,7 @@ def run(ch, ctx, fault=None):
         # the shared default namespace objects a class hands out are legitimate operands too
         for i in args_classes_early(classes):
             shared = defaults[i][classes[i]["cls"]]
-            nss.append((shared, i, dict(classes[i]["fields"])))
+            nss.append((shared, i, dict(classes[i]["defaults"])))
             snaps.append(("ns", shared, ns_snapshot(shared)))
         constructions = [0]
         key = []
@@ -228,6 +252,8 @@ def run(ch, ctx, fault=None):
                     obj = ns_cls(**vals)
                     model = dict(fields)
                     model.update(vals)
+                if classes[i].get("custom_init"):
+                    model[names[0]] += 1000
                 desc = "%s(%s) -> %s" % (ns_cls.__name__, vals, model)
                 add_ns(obj, i, model, desc)
             elif op == "ns_update":
